@@ -499,7 +499,7 @@ func (e *Engine) trIndex(env *SpecEnv, n SIndex) Val {
 	switch u := x.GoT.Underlying().(type) {
 	case *types.Slice:
 		hn, hs := e.sliceHeapName(u.Elem())
-		return Val{T: sel(sel(e.heapIn(env.st, hn, hs), "(s_ref "+x.T+")"), "(+ (s_off "+x.T+") "+i.T+")"), S: e.sortOf(u.Elem()), GoT: u.Elem()}
+		return Val{T: sel(sel(e.heapIn(env.st, hn, hs), "(s_ref "+x.T+")"), "(ix (s_off "+x.T+") "+i.T+")"), S: e.sortOf(u.Elem()), GoT: u.Elem()}
 	case *types.Basic:
 		return Val{T: "(str.to_code (str.at " + x.T + " " + i.T + "))", S: "Int", GoT: types.Typ[types.Uint8]}
 	case *types.Map:
@@ -575,7 +575,18 @@ func (e *Engine) trCall(env *SpecEnv, n SCall) Val {
 		if env.old == nil {
 			e.specFail(env, "old() not available here")
 		}
-		return e.trSpec(env.with(env.old), n.Args[0])
+		oenv := env.with(env.old)
+		// inside old(), parameter names denote their entry values
+		oenv.vars = make(map[string]Val, len(env.vars)+len(env.entryVals))
+		for k, v := range env.vars {
+			oenv.vars[k] = v
+		}
+		for k, v := range env.entryVals {
+			if _, bound := oenv.vars[k]; !bound {
+				oenv.vars[k] = v
+			}
+		}
+		return e.trSpec(oenv, n.Args[0])
 	case "entry":
 		if id2, ok := n.Args[0].(SIdent); ok {
 			if v, ok := env.entryVals[id2.Name]; ok {
@@ -631,6 +642,16 @@ func (e *Engine) trCall(env *SpecEnv, n SCall) Val {
 		}
 		_, ub := e.boxFns(t)
 		return Val{T: "(" + ub + " " + x.T + ")", S: e.sortOf(t), GoT: t}
+	case "splitSrc":
+		e.sc.declareFun("splitsrc", []string{"Int", "String"}, "String")
+		return Val{T: "(splitsrc (s_ref " + arg(0).T + ") " + arg(1).T + ")", S: "String", GoT: tString}
+	case "sliceHas":
+		x := arg(0)
+		sl, ok := x.GoT.Underlying().(*types.Slice)
+		if !ok {
+			e.specFail(env, "sliceHas on non-slice")
+		}
+		return boolVal(e.sliceHasTerm(env.st, x, sl.Elem(), arg(1).T))
 	case "cast":
 		x := arg(0)
 		t, err := e.w.resolveType(env.pkg, env.pos, specString(n.Args[1]))
